@@ -1,5 +1,8 @@
 INIT Init
 NEXT Next
 INVARIANT EveryElementInExactlyOneOms
+INVARIANT PairingIsMutual
+INVARIANT OppositeEndPoints
 INVARIANT ReverseIsInvolution
+INVARIANT ParallelRoutesArePaired
 INVARIANT OneOmsPerDirectedLink
